@@ -11,11 +11,15 @@
 (* SplitHistory (an instance keeps separate records per endpoint, so a     *)
 (* duty sent over the other endpoint does not see the first one),          *)
 (* OldResets (a request for an OLD duty O - below everything on record -    *)
-(* wipes the instance's record instead of being refused without effect).   *)
+(* wipes the instance's record instead of being refused without effect),   *)
+(* FaultMode (an instance whose storage fails while it handles a request:  *)
+(* shipped "closed" = no partial signature, record untouched; "readOpen" = *)
+(* a record that cannot be read counts as "nothing on record"; "writeOpen" *)
+(* = the signature is given although the record could not be written).     *)
 (***************************************************************************)
 EXTENDS Integers, FiniteSets, TLC, Json
 
-CONSTANTS N, T, ThresholdMode, SplitHistory, OldResets, OutFile
+CONSTANTS N, T, ThresholdMode, SplitHistory, OldResets, FaultMode, OutFile
 
 I == 1 .. N
 Duties == {"A", "B"}
@@ -43,15 +47,29 @@ RequestOld(i) ==
     /\ Accepted
     /\ signed' = IF OldResets THEN [signed EXCEPT ![i] = {}] ELSE signed
     /\ UNCHANGED given
+\* the instance's storage fails while it handles the request: f = "read" (the record cannot be read) or "write" (the new
+\* record cannot be written).  Shipped: the request fails, no partial signature, the record is what it was.
+Faults == {"read", "write"}
+RequestFault(i, d, e, f) ==
+    /\ Accepted
+    /\ IF f = "read" /\ FaultMode = "readOpen"
+         THEN /\ signed' = [signed EXCEPT ![i] = @ \cup {<<d, e>>}]
+              /\ given' = [given EXCEPT ![i] = @ \cup {<<d, e>>}]
+         ELSE IF f = "write" /\ FaultMode = "writeOpen" /\ (\A x \in Seen(i, e) : x[1] # Other(d))
+         THEN /\ given' = [given EXCEPT ![i] = @ \cup {<<d, e>>}]
+              /\ UNCHANGED signed
+         ELSE UNCHANGED vars
 Next == \/ \E i \in I, d \in Duties, e \in Endpoints : Request(i, d, e)
         \/ \E i \in I : RequestOld(i)
+        \/ \E i \in I, d \in Duties, e \in Endpoints, f \in Faults : RequestFault(i, d, e, f)
 Spec == Init /\ [][Next]_vars
 
 \* partial signatures once given stay given (the record may be wiped by a mutant, the signature is out)
 Partials(d) == {i \in I : \E e \in Endpoints : <<d, e>> \in given[i]}
 NotBothThreshold == ~(Cardinality(Partials("A")) >= T /\ Cardinality(Partials("B")) >= T)
 
-\* every routing of the two duties: per instance one of seven request orders (O = an old duty in between) (used for the replay)
-Orders == {"AB", "BA", "A", "B", "-", "AOB", "BOA"}
+\* every routing of the two duties: per instance one of eleven request orders (O = an old duty in between; a / b = the duty
+\* arrives while the instance's storage cannot be READ; x / y = duty A / B arrives while the record cannot be WRITTEN) (used for the replay)
+Orders == {"AB", "BA", "A", "B", "-", "AOB", "BOA", "Ab", "Ba", "xB", "yA"}
 Routings == [I -> Orders]
 =============================================================================
